@@ -151,11 +151,60 @@ fn c12_twin_reach() {
 """), functions=["Parser::group_to_matrix"], symbolic="-", shape="assert(false) twin", expect="fail", unwind=unwind))
     for h in hs:
         h["array_loops"] = True      # group_to_matrix really runs Modifiers::new() (core::array::from_fn over 26 slots)
+
+    # ---------------------------------------------------------------- optional `(X,M:N)` in an environment == the set of its M..N repetitions
+    # SubRule::context_match_option takes the optional's states and the rest of the environment as slices (R5: stack
+    # arrays). Word: four one-segment syllables [x0].[x1].[x2].[x3] (equal neighbours across a syllable edge are NOT a
+    # long segment, so the repetitions of X may really be equal); the optional starts at x1; X is one IPA segment c; the
+    # rest of the environment is `#` or one IPA segment d. Reference = the property's own expansion: some k in M..=N with
+    # x1..xk all equal to c and the rest matching right after them.
+    OPT_HDR = "#[kani::proof]\n" + G.STUB_RS + "\n#[kani::unwind(8)]"
+    opt_shapes = [(1, 2, "#"), (0, 1, "I"), (0, 2, "#"), (2, 3, "#"), (1, 1, "I"), (1, 0, "#"), (0, 0, "I")] if tier == "thorough" else [(1, 2, "#"), [(0, 1, "I"), (0, 2, "#"), (2, 3, "#")][seed % 3]]
+    for (mn, mx, rest) in opt_shapes:
+        nm = "c12_optional_%d_%d_%s" % (mn, mx, "W" if rest == "#" else "I")
+        hi = 3 if mx == 0 else min(mx, 3)          # max == 0 encodes "no upper bound" (doc: `(X,M:0)` / `(X,0)`)
+        alts = []
+        for k in range(mn, hi + 1):
+            reps = " && ".join("xs[%d] == c" % (1 + i) for i in range(k)) or "true"
+            after = 1 + k
+            if rest == "#":
+                tail = "true" if after >= 4 else "false"
+            else:
+                tail = ("xs[%d] == d" % after) if after < 4 else "false"
+            alts.append("(%s && %s)" % (reps, tail))
+        hs.append(G.H(nm, "optional-bounds", "subrule", G.T(OPT_HDR + """
+fn @name@() {
+    // environment `_ (c, @mn@:@mx@) @restdesc@` tried right after x0 in [x0].[x1].[x2].[x3]
+    let x0 = any_seg(); let x1 = any_seg(); let x2 = any_seg(); let x3 = any_seg();
+    let c = any_seg(); let d = any_seg();
+    let mut w = empty_word();
+    w.syllables.push(syll_of(&[x0], any_stress(), kani::any()));
+    w.syllables.push(syll_of(&[x1], any_stress(), kani::any()));
+    w.syllables.push(syll_of(&[x2], any_stress(), kani::any()));
+    w.syllables.push(syll_of(&[x3], any_stress(), kani::any()));
+    let xs = [x0, x1, x2, x3];
+    let sub = mk_sub(RuleType::Substitution);
+    let opt = [Item::new(ParseElement::Ipa(c, None), P)];
+    // states[0] stands for the optional itself (context_match_option only reads what FOLLOWS it)
+    let states = [Item::new(ParseElement::WordBound, P), @restitem@];
+    let mut si = 0usize;
+    let mut pos = SegPos::new(1, 0);
+    let r = sub.context_match_option(&states, &mut si, &w, &mut pos, true, &opt, @mn@, @mx@);
+    let exp = @alts@;
+    match r { Ok(v) => assert!(v == exp, "role=optional-equals-set-of-its-repetitions"), Err(_) => assert!(false, "role=unexpected-error") }
+    @covexp@ kani::cover!(!exp);
+    kani::cover!(x1 == c && x2 == c && x3 == c);
+    std::mem::forget(sub); std::mem::forget(w); std::mem::forget(opt); std::mem::forget(states);
+}
+""", name=nm, mn=mn, mx=mx, restdesc="#" if rest == "#" else "d", restitem="Item::new(ParseElement::WordBound, P)" if rest == "#" else "Item::new(ParseElement::Ipa(d, None), P)",
+            alts=" || ".join(alts), covexp="kani::cover!(exp);" if any((1 + k >= 4) if rest == "#" else (1 + k < 4) for k in range(mn, hi + 1)) else "// (no repetition count in M..N reaches the word edge: the environment can never match here)"), shared=[G.SUBRULE_SHARED],
+            functions=["SubRule::context_match_option", "SubRule::match_opt_states", "SubRule::context_match", "SubRule::context_match_ipa", "SegPos::increment", "HashMap::clone (empty binding tables)"],
+            symbolic="4 word bundles, the optional's segment c, the following segment d (2^240), stress, tone", shape="(c,%d:%d) followed by %s" % (mn, mx, rest), unwind=8, stubs=["std::hash::RandomState::new -> fixed keys"], weight=3))
     return {
         "harnesses": hs, "cap_s": 900,
         "bounds": ["unwind %d = FType::count()+4 (loops over 26 feature slots, 8 node slots, <=5 manual features, Vec of <=5 pairs)" % unwind,
                    "group table read from doc/doc.md of the copied tree at generation time: %s" % {k: v for k, v in sorted(groups.items())}],
-        "outside": ["condensed rules, `_,X`, `(X,M:N)` and `&`: their meaning is only observable by applying whole rules, which does not finish under CBMC",
+        "outside": ["condensed rules, `_,X` and `&`: their meaning is only observable by applying whole rules (or by parsing token vectors), which does not finish under CBMC; optionals are decided at the kernel (context_match_option with a one-segment optional followed by `#` or one segment), not nested and not with matrices",
                     "that the lexers produce a Group token for exactly these letters (lexers are out of reach)"],
         "assumptions": ["the manual's 'equiv. to [...]' lines are the specification", "ref_match_set/ref_match_feat in harness/common.rs"],
     }
